@@ -69,7 +69,7 @@ class Ctx(object):
     def tlc_phase(self, name, module, consts, invariants=(), properties=(), replay_cases=True,
                   translate=("replay", "steps_for"), judge_fn=("replay", "judge"), variant="opt",
                   require_actions=(), timeout=1500, simulate=None, depth=None, worker_env=None,
-                  max_cases=None, seed_tlc=False, **kw):
+                  max_cases=None, seed_tlc=False, record=None, **kw):
         wd = os.path.join(self.workdir, name)
         r = tlc.run_tlc(module, consts, wd, invariants=invariants, properties=properties,
                         timeout=timeout, simulate=simulate, depth=depth,
@@ -90,7 +90,8 @@ class Ctx(object):
         if replay_cases and r.ncases:
             built = self.build(variant)
             stats, fails = replay.replay_cases(built["worker"], r.cases_path, seed=self.seed, env=worker_env,
-                                               translate=translate, judge_fn=judge_fn, max_cases=max_cases)
+                                               translate=translate, judge_fn=judge_fn, max_cases=max_cases,
+                                               record=(record + (r.cases_path,) if record else None))
             ph["replayed"] = stats["n"]
             ph["replay_ok"] = stats["ok"]
             ph["expected_errors"] = stats.get("err_expected", 0)
